@@ -16,6 +16,11 @@ STORE_CMD = refcmd.encode({0x0002: convs.STORE_UID, 0x0100: 0x0001, 0x0110: 7, 0
 PART1 = {'t': 4, 'r': 0, 'pdvs': [{'id': 3, 'data': b'\x01' + STORE_CMD[:20]}]}
 PART2 = {'t': 4, 'r': 0, 'pdvs': [{'id': 3, 'data': b'\x03' + STORE_CMD[20:]}]}
 PART3 = {'t': 4, 'r': 0, 'pdvs': [{'id': 3, 'data': b'\x02' + b'DATASETBYTES'}]}
+# complete command set of a C-STORE-RQ for a class that is NOT received into a file (data set pending: PART3 ends it)
+MEM_CMD = refcmd.encode({0x0002: '1.2.840.10008.5.1.4.1.1.2', 0x0100: 0x0001, 0x0110: 9, 0x0700: 0, 0x0800: 0x0001,
+                         0x1000: '1.2.3.4.5.9'})
+MEMDATA = {'t': 4, 'r': 0, 'pdvs': [{'id': 3, 'data': b'\x02' + b'ANOTHER, LONGER DATA SET'}]}
+MEMPART = {'t': 4, 'r': 0, 'pdvs': [{'id': 3, 'data': b'\x03' + MEM_CMD}]}
 TWO_MSGS = {'t': 4, 'r': 0, 'pdvs': convs.echo_rq(1)['pdvs'] + convs.echo_rq(2)['pdvs']}
 ECHO1 = convs.echo_rq(1)
 USER_MSG3 = convs.store_rq_pdus(2, pc_id=3)            # 3 fragments (1 command + 2 data)
@@ -56,11 +61,11 @@ def net_alphabet(model):
            {'a': 'raw', 'data': convs.UNKNOWN_PDU}, {'a': 'close'}]
     prog = peer_progress(model) if model.state in (6, 7) else 0
     if prog == 0:
-        out += [{'a': 'pdu', 'spec': ECHO1}, {'a': 'pdu', 'spec': PART1}]
+        out += [{'a': 'pdu', 'spec': ECHO1}, {'a': 'pdu', 'spec': PART1}, {'a': 'pdu', 'spec': MEMPART}]
     elif prog == 1:
         out += [{'a': 'pdu', 'spec': PART2}]
     else:
-        out += [{'a': 'pdu', 'spec': PART3}]
+        out += [{'a': 'pdu', 'spec': PART3}, {'a': 'pdu', 'spec': MEMDATA}]
     return out
 
 
@@ -86,10 +91,23 @@ def tick_alphabet(model):
     return [{'a': 'tick', 'dt': 2.0}, {'a': 'tick', 'dt': 6.0}, {'a': 'tick', 'dt': 11.5}]
 
 
+def reception(max_pdu):
+    """Half of the runs (those with the small / unlimited own maximum) receive the storage class of PART1-3 into a
+    file, as a storage provider does; the class of MEMPART and everything else stays in memory."""
+    if max_pdu in (65536, 4096):
+        return {}
+    from pynetdicom2 import applicationentity, asceprovider
+    from pydicom import uid
+    ae = applicationentity.ClientAE('VERIF')
+    ctxs = {1: asceprovider.PContextDef(1, uid.UID(convs.VERIF_UID), uid.UID(convs.IMPLICIT)),
+            3: asceprovider.PContextDef(3, uid.UID(convs.STORE_UID), uid.UID(convs.IMPLICIT))}
+    return dict(store_in_file=frozenset([convs.STORE_UID]), get_file_cb=ae.get_file, accepted_contexts=ctxs)
+
+
 def run_history(role, hist, max_pdu=65536):
     case = {'role': role, 'history': hist, 'max_pdu': max_pdu}
     pred, model = H.predict(role, hist)
-    sim, obs, pre = H.observe(role, hist, max_pdu=max_pdu)
+    sim, obs, pre = H.observe(role, hist, max_pdu=max_pdu, **reception(max_pdu))
     H.compare(PROP, role, hist, pred, sim, obs, case)
     return pred, model
 
@@ -107,7 +125,7 @@ def dfs(ctx, role, depth, prefix, model_factory, seen_cells, eager_variants=Fals
     pred, model = H.predict(role, prefix)
     if prefix:
         try:
-            sim, obs, pre = H.observe(role, prefix, max_pdu=max_pdu)
+            sim, obs, pre = H.observe(role, prefix, max_pdu=max_pdu, **reception(max_pdu))
             H.compare(PROP, role, prefix, pred, sim, obs, {'role': role, 'history': prefix, 'max_pdu': max_pdu})
         except Violation as v:
             ctx.fail(v.key, v.what, v.case)
@@ -246,7 +264,7 @@ def run_walks(ctx, n, cells_out=None):
         ctx.case((role, hist, max_pdu), nt, labels=['walk', 'role=' + role, 'own-max=%d' % max_pdu, 'len=%d' % (len(hist) // 5 * 5)] +
                  ['reached-Sta%d' % s for s in states],
                  sample={'role': role, 'history': [brief_action(a) for a in hist]})
-        sim, obs, pre = H.observe(role, hist, max_pdu=max_pdu)
+        sim, obs, pre = H.observe(role, hist, max_pdu=max_pdu, **reception(max_pdu))
         H.compare(PROP, role, hist, pred, sim, obs, {'role': role, 'history': hist, 'max_pdu': max_pdu})
     hyp_search(ctx, walk(), fn, n, name='C05-walk')
 
@@ -268,6 +286,8 @@ def prefixes(role):
         return {
             'Sta2': [], 'Sta2-waited': [{'a': 'tick', 'dt': 6.0}], 'Sta3': [p(c.RQ_SPEC)], 'Sta6': est,
             'Sta6-midmsg': est + [p(PART1)],
+            'Sta6-after-msg': est + [p(PART1), p(PART2), p(PART3)],       # a whole data-bearing message was received
+            'Sta6-cmd-done': est + [p(MEMPART)],
             'Sta7': est + [u(c.REL_RQ)], 'Sta8': est + [p(c.REL_RQ)],
             'Sta7-midmsg': est + [p(PART1), u(c.REL_RQ)],
             'Sta10': est + [u(c.REL_RQ), p(c.REL_RQ)],
@@ -280,6 +300,7 @@ def prefixes(role):
     return {
         'Sta1': [], 'Sta5': [u(c.RQ_SPEC)], 'Sta6': est,
         'Sta6-sending': est + [{'a': 'user', 'msg': USER_MSG3}],
+        'Sta6-after-msg': est + [p(PART1), p(PART2), p(PART3)],
         'Sta7': est + [u(c.REL_RQ)], 'Sta8': est + [p(c.REL_RQ)],
         'Sta7-midmsg': est + [p(PART1), p(PART2), u(c.REL_RQ)],
         'Sta9': est + [u(c.REL_RQ), p(c.REL_RQ)],
@@ -303,9 +324,9 @@ def alphabet_after(role, prefix):
 def run(ctx):
     warnings.simplefilter('ignore')
     depth = 4 if ctx.thorough else 2
-    ctx.rule = ('exhaustive DFS of all histories of up to %d further steps from each of 23 canonical prefixes that '
+    ctx.rule = ('exhaustive DFS of all histories of up to %d further steps from each of 26 canonical prefixes that '
                 'reach every protocol state (both roles), over the alphabet {7 PDU kinds, complete / first / '
-                'continuing / last P-DATA fragments, unknown PDU type, peer close, each arriving after quiescence '
+                'continuing / last P-DATA fragments of messages received into a file (runs with own maximum 48 or 0) or in memory, unknown PDU type, peer close, each arriving after quiescence '
                 'or back-to-back, 2 s, 6 s and 11.5 s time advances, every user primitive legal in the model state incl. '
                 '1- and 3-fragment P-DATA requests}, plus Hypothesis random walks up to 30 steps with generated PDU '
                 'contents; every step compared with the executable PS3.8 model; non-trivial = the history reaches '
